@@ -733,6 +733,65 @@ MALFORMED = [
 ]
 
 
+# ---------------------------------------------------------------- the property's grammar, recognised independently
+import re as _re
+
+_NAME = r"[a-zA-Z0-9_.-]+"
+_TYPE = r"(?:bool|str|u?int(?:16|32|64)?|float(?:32|64|128)?)"
+_DIMS = r"(?:\[[0-9:,]+\])?"
+_VALUE = r"(?:\"(?:[^\"\\]|\\[\"'])*\"|'(?:[^'\\]|\\[\"'])*'|[^ #\"'{(][^ #\"']*)"
+_UNIT = r"(?: +[^ #=/*+\-][^ #=]*)?"
+_TAIL = r" *(?:#.*)?$"
+_RE_BLANK = _re.compile(r"^ *$")
+_RE_COMMENT = _re.compile(r"^ *#.*$")
+_RE_GROUP = _re.compile(r"^ *" + _NAME + r"(?: +#.*| *)$")
+_RE_CONST = _re.compile(r"^ *!constant" + _TAIL)
+_RE_UNITDEF = _re.compile(r"^\$unit +[a-zA-Z0-9_]+ *= *[^ #]+(?: +[^ #]+)? *$")
+_RE_DEF = _re.compile(r"^ *" + _NAME + r" +" + _TYPE + _DIMS + r" *= *" + _VALUE + _UNIT + _TAIL)
+_RE_DECL = _re.compile(r"^ *" + _NAME + r" +" + _TYPE + _DIMS + _UNIT + _TAIL)
+_RE_MOD = _re.compile(r"^ *" + _NAME + r" += *" + _VALUE + _UNIT + _TAIL)
+_RE_BLOCK_HEAD = _re.compile(r"^ *" + _NAME + r" +(?:" + _TYPE + _DIMS + r"|table) *= *\"\"\"$")
+_RE_BLOCK_END = _re.compile(r"^ *\"\"\"" + _UNIT + _TAIL)
+
+
+def in_grammar(text):
+    """Independent (regex) recogniser of the texts the properties quantify over: blank/comment lines, group lines,
+    typed definitions, declarations, modifications, !constant, $unit definitions, and definitions whose value is a
+    triple-quoted block; printable ASCII, blanks as the only white space.  Deliberately strict: a text it rejects
+    is outside the domain, and a difference between real code and model there is not a broken tie."""
+    if any((ord(c) < 32 and c != "\n") or ord(c) > 126 for c in text):
+        return False
+    lines = text.split("\n")
+    i = 0
+    while i < len(lines):
+        l = lines[i]
+        if '"""' in l:
+            if not _RE_BLOCK_HEAD.match(l):
+                return False
+            i += 1
+            while i < len(lines) and '"""' not in lines[i]:
+                i += 1
+            if i == len(lines) or not _RE_BLOCK_END.match(lines[i]):
+                return False
+        elif not (_RE_BLANK.match(l) or _RE_COMMENT.match(l) or _RE_GROUP.match(l) or _RE_CONST.match(l)
+                  or _RE_UNITDEF.match(l) or _RE_DEF.match(l) or _RE_DECL.match(l) or _RE_MOD.match(l)):
+            return False
+        i += 1
+    return True
+
+
+def report_tie_break(ctx, c, replay, detail):
+    """A difference between real code and model breaks the tie only inside the property's domain: generated
+    in-domain inputs (judge) and other texts the independent recogniser accepts.  Elsewhere it is counted and noted."""
+    if c["judge"] or in_grammar(c["text"]):
+        ctx.disagreement(c["stream"], replay, detail)
+    else:
+        ctx.count("mutated.out_of_domain_disagreement")
+        if sum(1 for n in ctx.notes if n.startswith("out-of-domain")) < 3:
+            ctx.notes.append("out-of-domain text on which real code and model differ (not judged): %r | %s" %
+                             (c["text"][:240], detail[:160]))
+
+
 def run_case(ctx, stream, text, lines_json, expected, units, nontriv, judge=True, preamble=UNIT_PREAMBLE):
     """One input: impl, model and (if lines_json) spec.  Returns the request for batching."""
     return {"stream": stream, "text": text, "lines": lines_json, "expected": expected,
@@ -756,7 +815,7 @@ def flush(ctx, cases, prop="C13", sig_fn=None):
         ctx.case(c["text"], c["nontriv"], {"text": c["text"][:400]} if c["nontriv"] else None)
         replay = {"stream": c["stream"], "text": c["text"], "units": sorted(c["units"]), "preamble": c["preamble"]}
         if "ok" not in r:
-            ctx.disagreement(c["stream"], replay, "driver error %s" % r)
+            report_tie_break(ctx, c, replay, "driver error %s" % r)
             continue
         model = decode_result(r["ok"].get("model"))
         spec = decode_result(r["ok"]["spec"]) if "spec" in r["ok"] else None
@@ -777,7 +836,9 @@ def flush(ctx, cases, prop="C13", sig_fn=None):
             continue
         impl_m = "err" if impl == "envbroken" else impl
         if not res_eq(impl_m, model):
-            ctx.disagreement(c["stream"], dict(replay, impl=jsonable(impl), model=jsonable(model)), first_diff(impl, model))
+            report_tie_break(ctx, c, dict(replay, impl=jsonable(impl), model=jsonable(model)), first_diff(impl, model))
+        elif not c["judge"]:
+            ctx.count("nongenerated.in_grammar" if in_grammar(c["text"]) else "nongenerated.out_of_grammar")
 
 
 def res_eq_exact(a, b):
